@@ -24,7 +24,7 @@ skipped silently; what is ignored is listed here: docstrings / bare string state
 whose arguments are formatting (or slices of names) only, exception objects of a known class that are built but not raised, and, for a function translated by REGION (minvar), the statements named
 verbatim in its spec (they must be present, textually unchanged, in the given order).
 """
-import ast, hashlib, os, re, sys, time
+import ast, copy, hashlib, os, re, sys, time
 from concurrent.futures import ThreadPoolExecutor
 import numpy as np
 import vlib
@@ -73,13 +73,21 @@ SPECS = {
     'ar2rc': dict(module='linear_prediction'),
     'rc2poly': dict(module='linear_prediction'),
     'rc2ac': dict(module='linear_prediction'),
+    # T7: the FFT-based kernels.  numpy.fft.fft / rfft are the IR's [EFft] / [ERfft] over a hidden twiddle parameter (the LAST parameter of the
+    # program); Window(N, name).data, numpy.pi and (CORRELOGRAMPSD) the results of xcorr are hidden oracle parameters
+    'arma2psd': dict(module='arma'),
+    'minvar': dict(module='minvar'),                                        # the WHOLE function: checks + embedded arburg + psi loop + fft + division
+    'CORRELOGRAMPSD': dict(module='correlog', oracle_calls=('xcorr',)),     # the xcorr branch stays an oracle call
+    # the 1-D path: the bodies of the `if x.ndim == 2:` tests are not translated ([SUnsupported]: entering one is the outcome OErr Unsupported)
+    'speriodogram': dict(module='periodogram', unsupported_if=('x.ndim == 2',)),
 }
 # oracle calls of a function when it is translated as a CALLEE (its hidden oracle parameters become hidden parameters of the caller)
 CALLEE_ORACLES = {('correlation', 'CORRELATION'): ('pylab_rms_flat',)}
 PACKAGE = 'spectrum'
 
 EXC = {'ValueError': 'ValueError', 'AssertionError': 'AssertionError', 'IndexError': 'IndexError',
-       'ZeroDivisionError': 'ZeroDivisionError', 'NotImplementedError': 'NotImplementedError'}
+       'ZeroDivisionError': 'ZeroDivisionError', 'NotImplementedError': 'NotImplementedError', 'TypeError': 'TypeError'}
+TW_KEY = 'fft@tw'            # the hidden twiddle parameter of a program that calls numpy.fft.fft / rfft: always its LAST parameter
 BINOPS = {ast.Add: 'BAdd', ast.Sub: 'BSub', ast.Mult: 'BMul', ast.Div: 'BDiv', ast.FloorDiv: 'BFloorDiv', ast.Mod: 'BMod'}
 CMPOPS = {ast.Eq: 'CEq', ast.NotEq: 'CNe', ast.Lt: 'CLt', ast.LtE: 'CLe', ast.Gt: 'CGt', ast.GtE: 'CGe'}
 
